@@ -187,6 +187,17 @@ def expected_2d(V, op):
     raise KeyError(name)
 
 
+def numpy_args(op, rng):
+    """The same op with its integer arguments given as NumPy integers of a randomly chosen dtype that holds the value (narrow and unsigned
+    ones included): an ordinal is an ordinal whatever integer type carries it.  The expectation is computed from the plain op."""
+    def conv(v):
+        if isinstance(v, bool) or not isinstance(v, int):
+            return v
+        ok = [d for d in (np.int8, np.uint8, np.int16, np.uint16, np.int32, np.uint32, np.int64) if np.iinfo(d).min <= v <= np.iinfo(d).max]
+        return rng.choice(ok)(v)
+    return (op[0], op[1], {'_call': tuple(conv(v) for v in op[1])})
+
+
 def check_ops(reader, ops, expect, tag=''):
     """Run ops on reader, compare with expect(op).  Returns (mismatches, n_compared)."""
     bad, n = [], 0
@@ -194,7 +205,7 @@ def check_ops(reader, ops, expect, tag=''):
     for op in ops:
         exp = expect(op)
         try:
-            got = getattr(reader, op[0])(*op[1])
+            got = getattr(reader, op[0])(*(op[2]['_call'] if len(op) > 2 and '_call' in op[2] else op[1]))
         except Exception as e:  # noqa
             bad.append({'sig': '%s%s:raised-%s' % (tag, op[0], type(e).__name__), 'detail': '%s%s -> %r' % (op[0], op[1], e)})
             n += 1
